@@ -130,8 +130,8 @@ def file_cases(ctx):
         return ctx.notes["files"]
     rng = ctx.rng
     cases = []
-    nseed = sz(ctx, 2, 8)
-    limit = sz(ctx, 110, 400)
+    nseed = sz(ctx, 3, 10)
+    limit = sz(ctx, 130, 400)
     for fmt in G.FMTS:
         for i in range(nseed):
             seed = G.BUILDERS[fmt](rng)
@@ -181,8 +181,8 @@ def correspondence(ctx, corr):
     for fmt, ext, data, label in cases[::sz(ctx, 9, 3)]:
         lines.append(srd_line(ctx, "auto", ext, data))
         tags.append(("sniff", ext, "window:" not in label))
-    cl = G.cmd_lines(rng, sz(ctx, 2500, 20000))
-    wl = G.walk_lines(rng, sz(ctx, 300, 2000))
+    cl = G.cmd_lines(rng, sz(ctx, 4000, 30000))
+    wl = G.walk_lines(rng, sz(ctx, 400, 3000))
     for l in cl + wl:
         lines.append(l)
         tags.append(("cmd", l.split(" ")[0], True))
@@ -368,7 +368,7 @@ def oracle(ctx, orc, focus=None):
             stats["names-ok"] += 1
 
     # 3. process level: mutated files
-    per_fmt = sz(ctx, 14, 60)
+    per_fmt = sz(ctx, 20, 80)
     chosen = []
     by = collections.defaultdict(list)
     for c in cases:
@@ -423,8 +423,8 @@ def oracle(ctx, orc, focus=None):
     stats["cpus"] = len(cpus)
     jobs, scripts = [], {}
     for cpu in cpus:
-        for k in range(sz(ctx, 1, 4)):
-            sc = command_script(rng, sz(ctx, 5, 12))
+        for k in range(sz(ctx, 2, 5)):
+            sc = command_script(rng, sz(ctx, 6, 12))
             eof_only = (k == 0 and rng.random() < 0.3)
             text = "\n".join(sc) + ("\n" if eof_only else "\nquit\n")
             scripts[(cpu, k)] = sc
